@@ -24,6 +24,7 @@ import (
 	"verif.local/harness/hx"
 	"verif.local/harness/px"
 	"verif.local/vrt"
+	"verif.local/vrt/vctx"
 	"verif.local/vrt/vtime"
 )
 
@@ -119,10 +120,11 @@ func queueScenario(name string, putters [][]putSpec, workers, requeues int, boun
 	isTimed := strings.Contains(name, "timed")
 	return explore.Scenario{
 		Name:   "queue/" + name,
-		Desc:   fmt.Sprintf("real queue.Queue (Run loop, resettable timer, virtual clock) with putters %v, %d worker(s); each delivery's outcome is an environment choice among Release / Requeue(+1s) / Requeue(+3s) / Requeue(-1s) (at most %d requeues per worker); every rendezvous is replayed on a reference model (pending/processing/parked)", putters, workers, requeues),
+		Desc:   fmt.Sprintf("real queue.Queue (Run loop, resettable timer, virtual clock) with putters %v, %d worker(s); each delivery's outcome is an environment choice among Release / Requeue(+1s)+trailing Release / Requeue(+3s) / Requeue(-1s)+trailing Release (at most %d requeues per worker); every rendezvous is replayed on a reference model (pending/processing/parked)", putters, workers, requeues),
 		Bounds: bounds,
+		HB:     true,
 		Body: func(x *explore.X) {
-			ctx, cancel := context.WithCancel(context.Background())
+			ctx, cancel := vctx.WithCancel(context.Background())
 			q := runtime.VerifNewQueue[string, int]()
 			m := newModel()
 			deliveries := 0
@@ -135,6 +137,7 @@ func queueScenario(name string, putters [][]putSpec, workers, requeues int, boun
 							vtime.Sleep(2 * time.Millisecond)
 						}
 						q.Put(s.key, s.val)
+						vrt.TouchKey("c09.model", true)
 						m.put(s.key, s.val, vrt.Now()) // same run segment as the rendezvous: model order = queue order
 					}
 				})
@@ -144,11 +147,13 @@ func queueScenario(name string, putters [][]putSpec, workers, requeues int, boun
 				vrt.GoNamed(fmt.Sprintf("worker%d", wi), func() {
 					budget := requeues
 					for {
+						vrt.TouchKey("c09.model", true)
 						idle[wi] = true
 						rc := vrt.RecvCase(q.Get())
 						if vrt.Select(false, vrt.RecvCase(ctx.Done()), rc) == 0 {
 							return
 						}
+						vrt.TouchKey("c09.model", true)
 						idle[wi] = false
 						item := rc.Value
 						k, v := item.Get()
@@ -164,6 +169,7 @@ func queueScenario(name string, putters [][]putSpec, workers, requeues int, boun
 						if budget > 0 {
 							choice = vrt.Choose(4, "outcome")
 						}
+						vrt.TouchKey("c09.model", true)
 						switch choice {
 						case 0:
 							item.Release()
@@ -180,6 +186,12 @@ func queueScenario(name string, putters [][]putSpec, workers, requeues int, boun
 							at := vtime.Now().Add(d)
 							item.Requeue(at)
 							m.release(k, v, true, int64(at.Sub(vtime.Base)), vrt.Now())
+							if choice != 2 {
+								// the runtime's reconcile loop always ends with a deferred Release, also after a
+								// Requeue: documented as a no-op, it must not release whoever holds the item by then
+								vrt.Yield()
+								item.Release()
+							}
 						}
 					}
 				})
@@ -187,6 +199,7 @@ func queueScenario(name string, putters [][]putSpec, workers, requeues int, boun
 			// run to quiescence, letting the virtual clock pass every requeue time
 			for i := 0; i < 64; i++ {
 				vrt.WaitQuiescent()
+				vrt.TouchKey("c09.model", true)
 				// promptness: with an idle worker nothing that is ready (a fresh notification makes an
 				// item ready at once) may be waiting for a timer
 				anyIdle := false
@@ -421,10 +434,13 @@ func build(tier string) []explore.Scenario {
 		queueScenario("1putter-1worker-timed", [][]putSpec{{{"k2", 9}, {"k1", 1}, {"k1", 2}, {"k1", 3}}}, 1, 1, []int{0, 1}),
 		queueScenario("2putters-1worker", [][]putSpec{{{"k1", 1}, {"k1", 2}}, {{"k1", 3}}}, 1, 1, []int{0, 1, 2}),
 		queueScenario("2putters-2workers", [][]putSpec{{{"k1", 1}, {"k2", 2}}, {{"k1", 3}}}, 2, 1, []int{0}),
-		queueScenario("1putter-2workers-samekey", [][]putSpec{{{"k1", 1}, {"k1", 2}, {"k1", 3}}}, 2, 1, []int{0, 1, 2}),
 	)
+	if tier != "thorough" {
+		out = append(out, queueScenario("1putter-2workers-samekey", [][]putSpec{{{"k1", 1}, {"k1", 2}, {"k1", 3}}}, 2, 1, []int{0, 1}))
+	}
 	if tier == "thorough" {
 		out = append(out,
+			queueScenario("1putter-2workers-samekey", [][]putSpec{{{"k1", 1}, {"k1", 2}, {"k1", 3}}}, 2, 1, []int{0, 1, 2}),
 			queueScenario("1putter-1worker-long", [][]putSpec{{{"k1", 1}, {"k1", 2}, {"k2", 3}, {"k1", 4}}}, 1, 2, []int{0, 1, 2}),
 			queueScenario("2putters-1worker-deep", [][]putSpec{{{"k1", 1}, {"k1", 2}}, {{"k1", 3}, {"k2", 4}}}, 1, 2, []int{0, 1, 2}),
 			queueScenario("2putters-2workers-deep", [][]putSpec{{{"k1", 1}, {"k1", 2}}, {{"k1", 3}, {"k2", 4}}}, 2, 1, []int{0, 1}),
